@@ -10,9 +10,14 @@
 //              C (continue with clone_with_alloc's result; answer carries PartialEq(orig, clone))
 //              L (append the listing of all non-initial entries)
 //        same request line is understood by ocaml/c19_driver.ml (the extracted model)
-//   P <q> <lgwin> <hint> <q95> <kinddesc> <maskbits> <seed> <style> <dlen> <tail> <rc> <p0> <p1> <s> <e> <allsplits> <nparts> <pseed>
+//   P <q> <lgwin> <hint> <q95> <kinddesc> <maskbits> <seed> <style> <dlen> <tail> <rc> <p0> <p1> <s> <e> <allsplits> <nparts> <pseed> [<full>]
 //        -> the property itself, decided on the real code only (independent of the model):
 //           OK checks=<n> | FAIL <what> ...
+//           full = 1 (default): bulk, range and the first partition are compared with PartialEq on
+//           the whole hasher, the clone is checked, and after the line both work hashers must be
+//           PartialEq to a pristine one (no write outside the slots of the hashed positions);
+//           full = 0: only the slots of the hashed positions are compared field by field (used for
+//           most lines of the kinds with tables of many megabytes).
 //
 // Data: maskbits = 0 -> mask = usize::MAX and data = gen(seed, style, dlen);
 //       maskbits = k -> mask = 2^k - 1, data = base(2^k bytes) ++ tail bytes, where the tail repeats
@@ -648,6 +653,7 @@ fn do_p(pool: &mut Option<Pool>, t: &[&str]) -> String {
         (Some(a), Some(b), Some(c), Some(d), Some(e), Some(f), Some(h)) => (a, b, c, d, e, f, h),
         _ => return "BADREQ".to_string(),
     };
+    let fullmode = g(19).unwrap_or(1) != 0;
     if pool.as_ref().map(|p| p.cfg != s.cfg).unwrap_or(true) {
         *pool = None;
         *pool = Some(Pool::new(s.cfg));
@@ -702,7 +708,8 @@ fn do_p(pool: &mut Option<Pool>, t: &[&str]) -> String {
         for w in cuts.windows(2) {
             ops.push(Op::B(w[0], w[1]));
         }
-        cands.push((format!("parts#{}:{:?}", k, cuts), ops, k == 0));
+        let cs: Vec<String> = cuts.iter().map(|c| c.to_string()).collect();
+        cands.push((format!("parts#{}:[{}]", k, cs.join(",")), ops, k == 0));
     }
     for (name, ops, full) in cands {
         let mut all = vec![prefix.clone()];
@@ -716,7 +723,7 @@ fn do_p(pool: &mut Option<Pool>, t: &[&str]) -> String {
             }
             Ok(_) => {}
         }
-        let same = if full { p.work == p.refh } else { sparse_diff(&mut p.work, &mut p.refh, &sp).is_none() };
+        let same = if full && fullmode { p.work == p.refh } else { sparse_diff(&mut p.work, &mut p.refh, &sp).is_none() };
         if !same {
             let w = match sparse_diff(&mut p.work, &mut p.refh, &sp) {
                 Some(w) => w,
@@ -724,7 +731,7 @@ fn do_p(pool: &mut Option<Pool>, t: &[&str]) -> String {
             };
             fails.push(format!("{}:{}", name, w));
         }
-        if name == "bulk" {
+        if name == "bulk" && fullmode {
             // a cloned index equals its source
             checks += 1;
             let mut a = StandardAlloc::default();
@@ -769,6 +776,14 @@ fn do_p(pool: &mut Option<Pool>, t: &[&str]) -> String {
     }
     sparse_reset(&mut p.refh, &sp);
     sparse_reset(&mut p.work, &sp);
+    if !fullmode {
+        return if fails.is_empty() {
+            format!("OK checks={}", checks)
+        } else {
+            let shown: Vec<String> = fails.iter().take(6).cloned().collect();
+            format!("FAIL n={} of {} {}", fails.len(), checks, shown.join(" "))
+        };
+    }
     if p.work != p.pristine {
         fails.push(format!("stray-write(work):{}", full_diff(&mut p.work, &mut p.pristine)));
         p.work = build(s.cfg);
